@@ -76,7 +76,7 @@ def buildLineMap (b : Bytes) : List Nat := lineMapAux b 0
 
 /-- `find_line` -/
 def findLine (lm : List Nat) (needle : Nat) : Nat :=
-  match lm.findIdx? (fun v => v > needle) with
+  match lm.findIdx? (fun v => v ≥ needle) with
   | some i => i + 1
   | none => lm.length + 1
 
